@@ -2,6 +2,8 @@ package explore
 
 import (
 	"crypto/sha256"
+	"sync"
+	"sync/atomic"
 	"time"
 )
 
@@ -17,11 +19,16 @@ type BFS[S any] struct {
 	// the oracle for states in OnState.
 	Expand func(s S, depth int, path []string, emit func(label string, next S))
 	// OnState is called once per distinct state.
-	OnState  func(s S, depth int, path []string)
-	MaxDepth int
-	Deadline time.Time
+	OnState   func(s S, depth int, path []string)
+	MaxDepth  int
+	Deadline  time.Time
 	MaxStates int
 	KeepPaths bool // remember the label path to every state (needed for replay files)
+	// Parallel > 1 expands the states of one level concurrently on that many
+	// goroutines. Key, Expand and OnState must then be safe for concurrent use
+	// (emit is). The set of states and transitions explored is the same as in the
+	// sequential search; only the order inside a level differs.
+	Parallel int
 
 	States      int
 	Transitions int
@@ -40,8 +47,11 @@ type bfsNode[S any] struct {
 func (b *BFS[S]) Run(inits []S) {
 	seen := map[[32]byte]struct{}{}
 	var cur []bfsNode[S]
+	var mu sync.Mutex
 	add := func(dst *[]bfsNode[S], s S, path []string, depth int) {
 		k := sha256.Sum256([]byte(b.Key(s)))
+		mu.Lock()
+		defer mu.Unlock()
 		if _, ok := seen[k]; ok {
 			return
 		}
@@ -61,6 +71,53 @@ func (b *BFS[S]) Run(inits []S) {
 			return
 		}
 		var next []bfsNode[S]
+		expand := func(n bfsNode[S]) {
+			b.Expand(n.s, depth, n.path, func(label string, ns S) {
+				mu.Lock()
+				b.Transitions++
+				mu.Unlock()
+				var p []string
+				if b.KeepPaths {
+					p = make([]string, len(n.path)+1)
+					copy(p, n.path)
+					p[len(n.path)] = label
+				}
+				add(&next, ns, p, depth+1)
+			})
+		}
+		if b.Parallel > 1 {
+			var wg sync.WaitGroup
+			var idx int64 = -1
+			var capped atomic.Value
+			for w := 0; w < b.Parallel; w++ {
+				wg.Add(1)
+				go func() {
+					defer wg.Done()
+					for {
+						i := int(atomic.AddInt64(&idx, 1))
+						if i >= len(cur) || b.Stop {
+							return
+						}
+						if !b.Deadline.IsZero() && time.Now().After(b.Deadline) {
+							capped.Store("deadline")
+							return
+						}
+						expand(cur[i])
+					}
+				}()
+			}
+			wg.Wait()
+			if b.Stop {
+				return
+			}
+			if c, ok := capped.Load().(string); ok {
+				b.Capped = c
+				return
+			}
+			b.DepthDone = depth + 1
+			cur = next
+			continue
+		}
 		for _, n := range cur {
 			if b.Stop {
 				return
@@ -73,16 +130,7 @@ func (b *BFS[S]) Run(inits []S) {
 				b.Capped = "max-states"
 				return
 			}
-			b.Expand(n.s, depth, n.path, func(label string, ns S) {
-				b.Transitions++
-				var p []string
-				if b.KeepPaths {
-					p = make([]string, len(n.path)+1)
-					copy(p, n.path)
-					p[len(n.path)] = label
-				}
-				add(&next, ns, p, depth+1)
-			})
+			expand(n)
 		}
 		b.DepthDone = depth + 1
 		cur = next
